@@ -101,6 +101,13 @@ FS2 = SObj(
     ),
     fields_set=True,
 )
+# inheritance from / to undecorated classes
+_FS1F = FS1.fields
+FSP = SObj("dataclass", "FSP", _FS1F, base="FS1", redecorate=False, serialized=(SerM("label", STR, "a_str"),))
+FSD = SObj("dataclass", "FSD", _FS1F + (SFld("z", Opt(INT), has_default=True, default=None),), base="FS1", own=("z",))
+UB = SObj("dataclass", "UB", (SFld("a", INT), SFld("b", Opt(STR), has_default=True, default=None)), serialized=(SerM("a_inc", INT, "a_plus1"),))
+DS = SObj("dataclass", "DS", UB.fields + (SFld("c", INT, has_default=True, default=0),), base="UB", own=("c",), fields_set=True, serialized=UB.serialized)
+SM1S = SObj("dataclass", "SM1S", SM1.fields + (SFld("c", INT, has_default=True, default=0),), base="SM1", own=("c",), serialized=SM1.serialized + (SerM("extra", INT, "const7", kind="property"),))
 FS3 = SObj("dataclass", "FS3", (SFld("fs", FS1), SFld("fss", Coll("list", FS1), factory="list"), SFld("n", INT, has_default=True, default=0)))
 FS4 = SObj("dataclass", "FS4", (SFld("p", P.A2, factory="obj:A2"), SFld("q", Opt(FS1), has_default=True, default=None)), fields_set=True, serialized=(SerM("p_a", INT, "p_a"),))
 S.BODIES["p_a"] = lambda s: s.p.a
@@ -138,7 +145,7 @@ DYNS = [
 KS = SObj("dataclass", "KS", (SFld("some_field", INT), SFld("other_field", Opt(INT), has_default=True, default=None, none_as_undefined=True), SFld("kept", INT, alias="z_z", no_override_alias=True, has_default=True, default=1)), class_aliaser="prefix")
 TD3 = Obj("typeddict", "TD3", (Fld("some_key", INT), Fld("opt_key", Opt(STR), td_required=False)))
 
-SER_OBJECTS: List[TD] = [SM1, SM2, SM3, SK, NU, UD, UD2, DF, RO, FS1, FS2, FS3, FS4, CV1, RS, RS2, CV2, KS, TD3]
+SER_OBJECTS: List[TD] = [SM1, SM2, SM3, SK, NU, UD, UD2, DF, RO, FS1, FS2, FS3, FS4, FSP, FSD, UB, DS, SM1S, CV1, RS, RS2, CV2, KS, TD3]
 SER_EXTRA: List[TD] = [
     Coll("list", SM1),
     Opt(SK),
@@ -146,6 +153,8 @@ SER_EXTRA: List[TD] = [
     Tup((NU, FS1)),
     Coll("list", FS1),
     Uni((FS1, SM2)),
+    Coll("list", FSP),
+    Opt(DS),
     Uni((RS, INT)),
     Coll("set", P.COLOR),
     Coll("frozenset", Tup((INT, STR))),
@@ -355,10 +364,11 @@ class Gen:
             out.append(build(minimal))
         if depth >= 2:
             return out
+        is_tracked = S.tracked(out[0]) is not None
         for f in init:
             for x in cand[f.name][1:]:
                 out.append(build({**full, f.name: x}))
-                if td.fields_set and not f.required:
+                if is_tracked and not f.required:
                     out.append(build({**minimal, f.name: x}))
             if not f.required:
                 out.append(build({k: x for k, x in full.items() if k != f.name}))
@@ -370,6 +380,17 @@ class Gen:
             kwargs = {f.name: self.rng.choice(cand[f.name]) for f in init if f.required or self.rng.random() < 0.6}
             assign = {f.name: self.rng.choice(cand[f.name]) for f in post if self.rng.random() < 0.5}
             out.append(build(kwargs, assign))
+        if is_tracked:
+            # the tracked set is part of the value: also values whose fields were marked unset / set
+            from apischema.fields import set_fields, unset_fields
+
+            optional = [f.name for f in td.fields if not f.required or not f.init]
+            for f in td.fields:
+                if f.name in optional:
+                    out.append(unset_fields(build(full), f.name))
+                    out.append(set_fields(build(minimal), f.name))
+            out.append(unset_fields(build(full), *optional))
+            out.append(set_fields(build(minimal), *[f.name for f in td.fields]))
         return out
 
 
